@@ -241,4 +241,52 @@ theorem literal_variable_same_value (reg : Reg) (hagree : CustomAgree reg) (vars
   cases valueFromAst reg vars fuel ty l <;> cases coerceValue reg fuel ty j <;> simp [Except.toOption]
   · intro h; subst h; exact Iff.rfl
 
+/-! ### known finding A8: JSON scalars of the wrong kind
+
+  The property wants (i) structurally wrong values rejected and (ii) inline == variable for EVERY value. For JSON scalars of the
+  wrong kind for a built-in scalar the code does neither: its `parse` functions are its lenient `serialize` functions
+  (pinned by tests/test_utilities/test_coerce_value.py, which passes strings for numbers). The full statements are kept visible
+  and refuted by machine-checked witnesses; `literal_variable_equiv` is the part that holds (`NaturalKind` values). -/
+
+/-- the FULL statement: every JSON scalar and the literal of the same spelling have the same outcome at every declared type -/
+def LiteralVariableEquivFull : Prop :=
+  ∀ (reg : Reg) (ty : Ty) (j : JV) (l : Lit), LeafSpell j l → (reg.get? ty.base).isSome = true →
+    (valueFromAst reg none 1 ty l).toOption = (coerceValue reg 1 ty j).toOption
+
+/-- `literal_variable_equiv` restated with its hypothesis by name: for values of the natural kind -/
+theorem literal_variable_equiv_partial (reg : Reg) (hagree : CustomAgree reg) (vars : Option (List (String × PV)))
+    (fuel : Nat) (ty : Ty) (j : JV) (hnat : NaturalKind reg ty j) :
+    ∃ l, AstOfJson reg ty j l ∧ (valueFromAst reg vars fuel ty l).toOption = (coerceValue reg fuel ty j).toOption := by
+  obtain ⟨l, hl⟩ := hnat
+  exact ⟨l, hl, literal_variable_equiv reg hagree vars fuel ty j l hl⟩
+
+private def regInt : Reg := Reg.ofTypes [("Int", .int), ("String", .string), ("Boolean", .boolean)]
+
+/-- **literal_variable_equiv_refuted_cross_kind** (A8). `Int`, `true`: through a variable the resolver receives `True`,
+    inline the request is rejected. -/
+theorem literal_variable_equiv_refuted_cross_kind : ¬ LiteralVariableEquivFull := by
+  intro h
+  have := h regInt (.named "Int") (.bool true) (.bool true) .bool rfl
+  have h1 : valueFromAst regInt none 1 (.named "Int") (.bool true) = .error .coercion := by rfl
+  have h2 : coerceValue regInt 1 (.named "Int") (.bool true) = .ok (.bool true) := by rfl
+  rw [h1, h2] at this
+  simp [Except.toOption] at this
+
+/-- the FULL rejection statement for scalars: a JSON scalar that is not of the natural kind for a built-in scalar type is rejected -/
+def RejectsCrossKindFull : Prop :=
+  ∀ (reg : Reg) (n : String) (k : NamedT) (j : JV), reg.get? n = some k → (k = .int ∨ k = .float ∨ k = .string ∨ k = .boolean ∨ k = .id) →
+    j.isNull = false → ¬ NaturalKind reg (.named n) j → ∀ pv, coerceValue reg 1 (.named n) j ≠ .ok pv
+
+/-- **rejects_cross_kind_refuted** (A8). `String`, `5`: not of the natural kind (a number has no spelling at a String position),
+    yet accepted through a variable — the resolver receives `"5"`. -/
+theorem rejects_cross_kind_refuted : ¬ RejectsCrossKindFull := by
+  intro h
+  refine h regInt "String" .string (.int 5) rfl (.inr (.inr (.inl rfl))) rfl ?_ (.str "5") (by rfl)
+  rintro ⟨l, hl⟩
+  cases hl with
+  | intInt hk => simp [regInt, Reg.ofTypes, Reg.get?, List.find?] at hk
+  | floatInt hk => simp [regInt, Reg.ofTypes, Reg.get?, List.find?] at hk
+  | idInt hk => simp [regInt, Reg.ofTypes, Reg.get?, List.find?] at hk
+  | custom hk _ => simp [regInt, Reg.ofTypes, Reg.get?, List.find?] at hk
+
 end PyGql.Props.C07
